@@ -41,11 +41,11 @@ def run(ctx):
     binary = ctx.go_build('engine')
 
     # 1. the design without the snapshot window: every contract invariant on every reachable abstract state
-    r = ctx.tlc_must_pass('TSMEngine', mc_cfg, timeout=sc * (100 if quick else 1200), coverage=True)
+    r = ctx.tlc_must_pass('TSMEngine', mc_cfg, timeout=sc * (400 if quick else 1500), coverage=True)
     ctx.check_coverage(r, T.ALL_ACTIONS + T.DELETE_ACTIONS + T.DELETE_COMPACT_ACTIONS)
 
     # 2. the lead: with the window allowed the model itself resurrects points; it only counts if the real engine does too
-    lead = ctx.tlc('TSMEngine', lead_cfg, timeout=sc * (100 if quick else 300))
+    lead = ctx.tlc('TSMEngine', lead_cfg, timeout=sc * (300 if quick else 600))
     if lead.timed_out:
         raise vlib.Inconclusive('TLC timed out on the lead configuration')
     lconsts = T.cfg_constants(lead_cfg)
@@ -64,7 +64,7 @@ def run(ctx):
                                 'real engine: the model is wrong about the code (or F1 was repaired: update TSMEngine.tla DeleteCache)')
 
     # 3. behaviours: one history per distinct abstract state, deletes interleaved with snapshot / compaction / reopen
-    g = ctx.tlc_must_pass('TSMEngine', gen_cfg, timeout=sc * (100 if quick else 900), dump=True)
+    g = ctx.tlc_must_pass('TSMEngine', gen_cfg, timeout=sc * (400 if quick else 1200), dump=True)
     hs, stats = T.histories(ctx, g.dump_path, want=300 if quick else 6000, budget_s=20 if quick else 420,
                             exact_leaves=not quick)
     T.require_actions(stats, T.ALL_ACTIONS + T.DELETE_ACTIONS + T.DELETE_COMPACT_ACTIONS)
@@ -72,7 +72,7 @@ def run(ctx):
     nkeys, ntimes = T.set_size(consts['Keys']), T.set_size(consts['Times'])
     nconc = 1 if quick else 2
     cases = T.make_cases('C03', hs, nkeys, ntimes, lambda i: [i * nconc + j for j in range(nconc)])
-    res, lines = ctx.replay(binary, cases, par=1, timeout=sc * (150 if quick else 1500), case_timeout='90s')
+    res, lines = ctx.replay(binary, cases, par=1, timeout=sc * (600 if quick else 1700), case_timeout='90s')
     ctx.absorb(res, lines)
     ctx.exhaustive = bool(stats.get('exact_leaves')) and stats.get('selected') == stats.get('leaves')
     ctx.extra_cov['generation'] = stats
